@@ -141,7 +141,7 @@ impl Suggestion {
 pub enum Rank {
     First(String),
     Emoji(String, u8),
-    Other(String, u8),
+    Other(String, usize),
     Last(String, u8),
 }
 
@@ -166,7 +166,7 @@ impl Rank {
     /// Uses edit distance to rank the `item`.
     pub(crate) fn new_suggestion(item: String, base: &str) -> Self {
         let distance = edit_distance(base, &item) * 10;
-        Rank::Other(item, distance as u8)
+        Rank::Other(item, distance)
     }
 
     /// An Emoji suggestion.
@@ -218,8 +218,8 @@ impl Ord for Rank {
             (Rank::Last(_, _), Rank::First(_)) => Ordering::Greater,
 
             (Rank::Emoji(_, _), Rank::Emoji(_, _)) => Ordering::Equal,
-            (Rank::Emoji(_, e), Rank::Other(_, s)) => e.cmp(s),
-            (Rank::Other(_, s), Rank::Emoji(_, e)) => s.cmp(e),
+            (Rank::Emoji(_, e), Rank::Other(_, s)) => usize::from(*e).cmp(s),
+            (Rank::Other(_, s), Rank::Emoji(_, e)) => s.cmp(&usize::from(*e)),
             (Rank::Emoji(_, _), Rank::Last(_, _)) => Ordering::Less,
             (Rank::Last(_, _), Rank::Emoji(_, _)) => Ordering::Greater,
 
